@@ -118,6 +118,22 @@ func (c *Ctx) uniqueConverter(rule, what string, ds []*declInfo, pred func(f *ty
 
 // apply folds the module function f on one input (receiver or single argument).
 func (c *Ctx) apply(f *types.Func, in ...value) []value {
+	out := c.apply0(f, in...)
+	// a converter that reports "no image" through a second boolean result (v, ok) is read like one
+	// that reports it through an error: ok ↦ nil error, !ok ↦ an error
+	if sig, _ := f.Type().(*types.Signature); sig != nil && sig.Results().Len() == 2 && len(out) == 2 {
+		if b, isB := sig.Results().At(1).Type().Underlying().(*types.Basic); isB && b.Kind() == types.Bool && out[1].k == vConst {
+			if out[1].c != nil && out[1].c.ExactString() == "true" {
+				out[1] = value{k: vNil}
+			} else {
+				out[1] = value{k: vErr}
+			}
+		}
+	}
+	return out
+}
+
+func (c *Ctx) apply0(f *types.Func, in ...value) []value {
 	fd, pk := c.P.FuncDecl(objName(f))
 	if fd == nil {
 		return []value{unknown("no declaration for %s", objName(f))}
